@@ -36,6 +36,31 @@ def _replay_dir(prop_id: str) -> str:
     return d
 
 
+def _run_with_unit(mod, case, ctx):  # noqa: ANN001
+    """Workload class 'fractional time unit': the same trace recorded at sub-microsecond resolution (every ts / dur times a
+    dyadic constant, exact in doubles) and loaded with the documented option HTA_DISABLE_NS_ROUNDING=1, so that all time
+    columns are float.  Drivers and oracles are unchanged: they read the scaled files."""
+    keys = getattr(mod, "FLOAT_KEYS", None)
+    unit = case.get("time_unit", 1) if isinstance(case, dict) else 1
+    if unit == 1 or not keys or not all(isinstance(case.get(k), dict) for k in keys):
+        return mod.run_case(case, ctx)
+    from hv import gen_sim
+
+    c2 = dict(case, time_unit=1, time_unit_applied=unit)
+    for k in keys:
+        c2[k] = gen_sim.scaled_files(case[k], unit)
+    if c2.get("post_edits"):
+        c2["post_edits"] = [[fn, idx, dur * unit] for fn, idx, dur in c2["post_edits"]]
+    core.FLOAT_MODE = True
+    try:
+        with core.env(HTA_DISABLE_NS_ROUNDING="1"):
+            r = mod.run_case(c2, ctx)
+    finally:
+        core.FLOAT_MODE = False
+    r.counters["fractional_time_cases"] += 1
+    return r
+
+
 def run(argv=None) -> int:
     ap = argparse.ArgumentParser()
     ap.add_argument("prop")
@@ -89,7 +114,9 @@ def run(argv=None) -> int:
                 if case is None:
                     rnd = core.rng(a.seed, a.prop, a.tier, ident)
                     case = mod.gen_case(rnd, a.tier, ident)
-                r = mod.run_case(case, ctx)
+                    if getattr(mod, "FLOAT_KEYS", None) and isinstance(case, dict) and "time_unit" not in case and all(isinstance(case.get(k), dict) for k in mod.FLOAT_KEYS):
+                        case["time_unit"] = core.rng(a.seed, a.prop, a.tier, ident, "unit").choice([1, 1, 1, 1, 0.125, 0.375])
+                r = _run_with_unit(mod, case, ctx)
             except core.OutOfRegime as e:
                 res["discarded"] += 1
                 discard[str(e)[:80]] += 1
